@@ -710,11 +710,15 @@ def run(ctx):
                             'the bytes put, in order, each once, with the original buffer as sink; release() flushes the rest, restores the original buffer and forgets the stream; a failing convert makes overflow '
                             'return EOF, sets failbit and makes release report -1')
     from vlib.absint import AV as _AV, Arr as _Arr, PV as _PV, Cell as _Cell, Interp as _Interp, OutOfBounds as _OOB, Unsupported as _Uns
+    _pending_broken = []
     for rec in sorted(fbs):
         short = rec.split('::')[-1].split(',')[0]
         fns_ = dict((g.short if g.kind == 'method' else g.kind, g) for g in fbs[rec] if not (g.kind == 'ctor' and g.params))
         need = ('ctor', 'steal', 'release', 'overflow')
-        ctx.require(all(k_ in fns_ for k_ in need), 'C15.R9: %s lacks one of %s' % (rec, need))
+        if not all(k_ in fns_ for k_ in need):
+            # a member that is never called is not instantiated: the missing call is reported by R8 below; only if nothing is reported is this an analysis failure
+            _pending_broken.append('C15.R9: %s lacks one of %s' % (rec, need))
+            continue
         try:
             N_ = int(rec.rstrip('> ').rsplit(',', 1)[1])
         except ValueError:
@@ -829,11 +833,14 @@ def run(ctx):
                         bad.append('%d bytes put, convert fails: the original buffer is not restored' % M)
             if bad:
                 break
+        nb_ = q.narrowed_char_eof_tests(fns_['overflow'])
+        ctx.check(not nb_, R9, '%s:overflow:EOF-tested-on-the-int' % short, 'the overflowing character is compared with EOF after narrowing to char: byte 0xFF is dropped', fns_['overflow'].loc(nb_[0]) if nb_ else fns_['overflow'].where)
         dt = [g for g in fbs[rec] if g.kind == 'dtor' and g.body is not None]
         ctx.check(bool(dt) and any(q.short_of(dt[0].callee(i) or '') == 'release' for i in dt[0].calls()), R9, '%s:destructor-releases' % short,
                   'the destructor does not release(): an exception while the value is rendered leaves the stream pointing at a destroyed buffer', dt[0].where if dt else fns_['overflow'].where)
         ctx.check(not bad, R9, '%s:put-area-protocol' % short, '; '.join(bad[:2]), fns_['overflow'].where, detail={'runs': nruns, 'buffer': N_})
-    ctx.floor(R9, 4)
+    if not _pending_broken:
+        ctx.floor(R9, 6)
     ctx.floor(R5, 7)
     ctx.floor(R6, 6)
     ctx.floor(R1, 4)
@@ -870,6 +877,8 @@ def run(ctx):
                     why = 'b64url::encode is not given [begin(), end()) of the captured text and `out`'
         ctx.check(ok, R8, 'filters::%s::operator():diverts-then-renders' % cls, why, f.where)
     ctx.floor(R8, 3)
+    if _pending_broken and not ctx.violations:
+        raise AnalysisBroken(_pending_broken[0])
     ctx.floor(R3, 4)
     ctx.floor(R4, 10)
     ctx.trust('entity table, RFC 3986 unreserved set and RFC 4648 section 5 alphabet embedded in rules/C15.py')
